@@ -3,6 +3,7 @@ import DriverLib.Revo
 import DriverLib.Trust
 import DriverLib.Envelope
 import DriverLib.EnvState
+import DriverLib.Sign
 /-!
   Line-protocol driver: one JSON case per line on stdin, one JSON answer per line on stdout.
   `{"id":…, "k":<handler>, "in":{…}}`  ↦  `{"id":…, "out":{…}}` or `{"id":…, "error":"…"}`.
@@ -16,6 +17,7 @@ def dispatch (prop k : String) (i impl : Json) : E Json :=
   | "validate" => handleValidate prop i impl
   | "trust" => handleTrust i
   | "envstate" => handleEnvState i
+  | "sign" => handleSign prop i impl
   | "jwsread" => handleJwsRead prop i impl
   | "coseread" => handleCoseRead prop i impl
   | "noop" => do
